@@ -181,6 +181,9 @@ impl Drop for TunnelPeer {
 
 impl Write for TunnelPeer {
     fn write(&mut self, buf: &[u8]) -> io::Result<usize> {
+        // a transport may accept fewer bytes than offered
+        let limit = crate::transport::short_write_limit();
+        let buf = if limit > 0 { &buf[..buf.len().min(limit)] } else { buf };
         let log_arc = self.log.clone();
         let mut log = log_arc.lock().unwrap();
         let served = log.served;
